@@ -365,9 +365,51 @@ func checkC13SML(c c13SMLCase) (ci caseInfo, err error) {
 	return ci, nil
 }
 
+// a declared size is a claim about the number of elements WRITTEN, not a request for capacity: a small item whose
+// declared upper bound lies at or beyond what the format can hold at all is still a small, constructible item
+type c13DeclCase struct {
+	Kind string `json:"kind"`
+	Form string `json:"form"` // "[0..%d]" or "[..%d]"
+	Hi   uint64 `json:"hi"`
+}
+
+func init() { registerReplay("c13decl", checkC13Decl) }
+
+func checkC13Decl(c c13DeclCase) (ci caseInfo, err error) {
+	ci.Nontrivial = true
+	ci.Key = fmt.Sprintf("decl/%s/%s/%d", c.Kind, c.Form, c.Hi)
+	ci.label("sml-small-item-with-large-declared-upper-bound")
+	body := literalBody(c.Kind, 2)
+	if c.Kind == model.L {
+		body = " <U1 1> <U1 1>" // literalBody's two-entry list holds variables
+	}
+	text := "S1F1 W H->E\n<" + c.Kind + fmt.Sprintf(c.Form, c.Hi) + body + ">\n."
+	msgs, errs, _ := sml.Parse(text)
+	if len(errs) != 0 || len(msgs) != 1 {
+		return ci, fmt.Errorf("a %s item of 2 elements declared %s is rejected: %q", c.Kind, fmt.Sprintf(c.Form, c.Hi), errs)
+	}
+	done := msgs[0].SetSessionIDAndSystemBytes(1, []byte{0, 0, 0, 1})
+	lh, _ := refHeader(c.Kind, 2)
+	if b := done.ToBytes(); len(b) < 14+len(lh) || !bytes.Equal(b[14:14+len(lh)], lh) {
+		return ci, fmt.Errorf("a %s item of 2 elements declared %s encodes to %s", c.Kind, fmt.Sprintf(c.Form, c.Hi), hexPrefix(b, 24))
+	}
+	return ci, nil
+}
+
 func TestC13Items(t *testing.T) {
 	shard, nshards := shardInfo()
 	seq := 0
+	for _, kind := range model.AllKinds {
+		maxc := uint64(model.MaxLen / model.Width(kind))
+		for _, hi := range []uint64{maxc - 1, maxc, maxc + 1, 2 * maxc, model.MaxLen + 1, 1 << 31, 1 << 40} {
+			for _, form := range []string{"[0..%d]", "[..%d]", "[1..%d]"} {
+				seq++
+				if seq%nshards == shard {
+					runCase[c13DeclCase](t, "C13", "c13decl", checkC13Decl, c13DeclCase{Kind: kind, Form: form, Hi: hi})
+				}
+			}
+		}
+	}
 	nested := []c13NestedCase{
 		{Kind: model.A, Children: []int{model.MaxLen}}, {Kind: model.B, Children: []int{9000000, 9000000}},
 		{Kind: model.U1, Children: []int{model.MaxLen, 1}}, {Kind: model.A, Children: []int{model.MaxLen - 1, 3}},
